@@ -20,6 +20,8 @@ SCENARIOS_QUICK = [
     "persist 9 " + _FULL,
     "persist 6 " + _FULL_NOSLEEP,
     "storeid 3 " + _FULL,
+    "persistseq 5 9 13 " + _FULL,             # a long-running agent: kill inside the 2nd and 3rd save as well
+    "startpersist 6 " + _EMPTY,               # first start, then first save, one process
 ]
 SCENARIOS_THOROUGH = SCENARIOS_QUICK + [
     "start " + _IDONLY,
@@ -30,6 +32,11 @@ SCENARIOS_THOROUGH = SCENARIOS_QUICK + [
     "persist 41 " + _LEFTOVERS2,
     "storeid 1 " + _EMPTY,
     "storeid 2 " + _LEFTOVERS,
+    "persistseq 1 2 6 " + _LEFTOVERS2,
+    "persistseq 9 9 0 " + _FULL_NOSLEEP,
+    "persistseq 5 6 9 " + _EMPTY,             # no data directory: every save fails, nothing is created
+    "startpersist 9 " + _KEYNOPUB,
+    "startpersist 41 " + _LEFTOVERS,
 ]
 CLASSES = ["open", "write", "rename", "mkdir", "close", "unlink"]
 MAXN = 60
@@ -64,7 +71,9 @@ def random_scenarios(seed, n):
         sl = rnd.choice(["-", "w1", "w5", "w6", "w42"])
         st = "d1 %s %s %s %s %s %s %s %s" % (idf, tmp("id"), key, tmp("key"), pub, tmp("pub"), sl, tmp("sl"))
         act = rnd.choice(["start", "start", "persist %d" % rnd.choice([0, 1, 2, 9, 13, 41]), "persist %d" % rnd.choice([5, 6]),
-                          "storeid %d" % rnd.choice([1, 2, 4])])
+                          "storeid %d" % rnd.choice([1, 2, 4]),
+                          "persistseq %d %d %d" % (rnd.choice([1, 5]), rnd.choice([2, 9]), rnd.choice([6, 13, 41])),
+                          "startpersist %d" % rnd.choice([1, 6, 9])])
         out.append(act + " " + st)
     return out
 
@@ -144,6 +153,12 @@ def extra(c):
                  "%d real kills (%d distinct left-over states) over %d scenarios admitted by the model" % (killed, len(distinct), len(scen)))
     c.p.setdefault("extra_coverage", {})["real_process_kills"] = killed
     c.p["extra_coverage"]["distinct_crash_states_observed"] = len(distinct)
+    c.p["extra_coverage"]["synthetic_only"] = [
+        "a write cut short inside ONE write call (cut states): only as generated start states of T-diff 1 and in the theorems; strace kills on call entry and cannot produce them",
+        "unreadable / permission-denied data directory and other I/O errors: not generated (the checks run as root; errors other than ENOENT are outside the crash model)",
+        "missing data directory: generated (d0 states; saves fail without creating anything)",
+        "second and later saves of one process, stale temp files of earlier kills, start followed by a save: real kills (persistseq / startpersist / leftover scenarios)",
+    ]
 
 
 PROP = dict(
